@@ -6,7 +6,10 @@
        trusted base, exercised against the real libtbb by harness/c20.cpp with raw create/destroy sequences]:
        the runtime keeps the multiset of live controls; active_value = the default (a parameter; on this host the
        hardware concurrency, read from the run, never hard-coded) if none is live, else the minimum of the live
-       values — NOT clamped by the hardware.  The constructor dies on value 0
+       values — NOT clamped by the hardware (observed on oneTBB 2021.8: exact for every value as long as the
+       scheduler has not started, and for values <= 256 afterwards; once worker threads exist the runtime caps the
+       REPORTED value at its hard worker limit + 1 = 257 on this host.  Harness and demo hook read the value before
+       any parallel work).  The constructor dies on value 0
        (__TBB_ASSERT_RELEASE(my_value>0, "max_allowed_parallelism cannot be 0.")): explicit result `Abort`.
 
    (2) parmcb::set_global_tbb_concurrency (include/parmcb/util.hpp), in two versions:
@@ -233,6 +236,7 @@ Definition demo_run (setf : Z -> prog -> res prog) (knobf : Z -> demo_opts -> kn
   | Applied v => bind (setf v prog0) (fun p => Ok (active dflt (rt p)))
   end.
 
-(* src/mcb-dimacs-mpi.cpp: no --cores, no --parallel, no call of the knob (unknown options are accepted and ignored
-   because of allow_unregistered()); every algorithm it selects is a parallel one *)
+(* src/mcb-dimacs-mpi.cpp: no --cores, no --parallel, no call of the knob (an unknown "--cores=3" is accepted and
+   ignored because of allow_unregistered(); "--cores 3" is rejected only because 3 becomes a second positional);
+   every algorithm it selects is a parallel one *)
 Definition demo_mpi_knob (bhw : Z) (o : demo_opts) : knob := NotApplied.
